@@ -56,11 +56,32 @@ def _case(draw, tier):
     sel = draw(st.sampled_from(SELECTIONS))
     planted_box = None
     am_nodes = [p for p in mesh["nodes"] if abs(abs(p[0]) - 180.0) < 1e-12 and abs(p[1]) < 85.0]
-    if sel == "bbox" and am_nodes and draw(st.booleans()):
-        # a box spanning the antimeridian drawn around a node that sits exactly on it
+    cand = [i for i, p in enumerate(mesh["nodes"]) if abs(p[1]) < 80.0]
+    if sel == "bbox" and not am_nodes and cand and src != "mpas" and draw(st.integers(0, 3)) > 0:
+        # construction: turn the whole mesh about the polar axis so that one node sits exactly on the antimeridian
+        # (stored as +180 or -180)
+        k = cand[draw(st.integers(0, len(cand) - 1))]
+        delta = 180.0 - mesh["nodes"][k][0]
+        edge = draw(st.sampled_from([180.0, 180.0, -180.0]))
+        nodes = [[(((p[0] + delta) + 180.0) % 360.0) - 180.0, p[1]] for p in mesh["nodes"]]
+        nodes[k][0] = edge
+        mesh = dict(mesh, nodes=nodes)
+        am_nodes = [p for p in nodes if abs(abs(p[0]) - 180.0) < 1e-12 and abs(p[1]) < 85.0]
+    planted_element = None
+    if sel == "bbox" and am_nodes and draw(st.integers(0, 3)) > 0:
+        # a box spanning the antimeridian drawn around a node that sits exactly on it, or around the centre of an
+        # edge lying along it (whose derived longitude is +180 or -180 depending on a signed zero)
         nd = am_nodes[draw(st.integers(0, len(am_nodes) - 1))]
-        a, b = draw(st.floats(0.5, 40.0)), draw(st.floats(0.5, 40.0))
-        c, dd = draw(st.floats(0.5, 30.0)), draw(st.floats(0.5, 30.0))
+        on_am = {i for i, p in enumerate(mesh["nodes"]) if abs(abs(p[0]) - 180.0) < 1e-12 and abs(p[1]) < 85.0}
+        am_edges = sorted({tuple(sorted((f[j], f[(j + 1) % len(f)]))) for f in mesh["faces"] for j in range(len(f)) if f[j] in on_am and f[(j + 1) % len(f)] in on_am})
+        if am_edges and draw(st.booleans()):
+            a_, b_ = am_edges[draw(st.integers(0, len(am_edges) - 1))]
+            nd = [180.0, 0.5 * (mesh["nodes"][a_][1] + mesh["nodes"][b_][1])]
+            planted_element = "edge centers"
+        # half of the boxes are small, so that the node on the antimeridian is the only corner of its faces inside
+        hi_ = 3.0 if draw(st.booleans()) else 40.0
+        a, b = draw(st.floats(0.5, hi_)), draw(st.floats(0.5, hi_))
+        c, dd = draw(st.floats(0.5, min(hi_, 30.0))), draw(st.floats(0.5, min(hi_, 30.0)))
         planted_box = [180.0 - a, a + b, max(-89.0, nd[1] - c), c + dd]
     case = {
         "mesh": mesh,
@@ -88,8 +109,9 @@ def _case(draw, tier):
         "radius": draw(st.sampled_from([None, None, None, 2.5, 6371229.0])),
     }
     if planted_box:
+        case["planted"] = "small" if hi_ == 3.0 else "large"
         case["lon0"], case["lon_w"], case["lat0"], case["lat_h"] = planted_box
-        case["element"] = draw(st.sampled_from(["nodes", "nodes", "edge centers", "face centers"]))
+        case["element"] = planted_element or draw(st.sampled_from(["nodes", "nodes", "edge centers", "face centers"]))
     return case
 
 
@@ -105,6 +127,8 @@ def classify(case):
         labs.append("idx:" + case["idx_mode"])
     if case["sel"] == "bbox" and _box(case)[0][0] > _box(case)[0][1]:
         labs.append("bbox-spans-antimeridian")
+    if case.get("planted"):
+        labs.append("bbox-around-node-on-antimeridian:" + case["planted"] + ":" + case["element"].split()[0])
     if case["sel"] == "const_lat" and case["lat_from_node"] is not None:
         labs.append("lat-equals-a-node-latitude")
     nontrivial = case["idx_mode"] != "all" and (bool(case["materialise"]) or case["data"] is not None or case["source"] == "mpas")
@@ -219,7 +243,8 @@ def run_case(case, ctx):
         lat = np.degrees(np.arcsin(np.clip(P[:, 2], -1, 1)))
         span = lo > hi
         eps = 1e-6
-        polar = np.hypot(P[:, 0], P[:, 1]) < 1e-12
+        # (an element at a pole has no longitude; it only matters when its latitude lies inside the box)
+        polar = (np.hypot(P[:, 0], P[:, 1]) < 1e-12) & (lat > la0 - eps) & (lat < la1 + eps)
         if np.any(polar):
             ctx.label("no-verdict:element-at-pole-has-no-longitude")
             return fails
